@@ -37,9 +37,13 @@ def one(d):
         if rc != 0:
             return name, "PATCH DOES NOT APPLY", {}
         env = dict(os.environ, VERIF_REPO=S + "/repo", VERIF_EVIDENCE_DIR=S + "/ev")
-        if ONLY:
-            fired = {k: v for k, v in (meta.get("checks_fired_quick") or {}).items() if k not in ONLY}
-        for pid in (ONLY or IDS):
+        only = ONLY
+        if os.environ.get("VERIF_TARGET_ONLY"):
+            # quick regression: every seed against the check of the property it was written for; the other verdicts are kept
+            only = [meta["property"]]
+        if only:
+            fired = {k: v for k, v in (meta.get("checks_fired_quick") or {}).items() if k not in only}
+        for pid in (only or IDS):
             q = subprocess.run(["/verif/check", pid, "quick"], env=env, stdout=subprocess.PIPE, stderr=subprocess.STDOUT, text=True)
             if q.returncode != 0:
                 fired[pid] = [l.strip()[:500] for l in q.stdout.split("\n") if l.startswith("  rule")][:2]
